@@ -191,3 +191,7 @@ def empty_set_truth(xs):
 
 def lookup_all(d, xs):
     return [d[x] for x in xs]
+
+
+def positive_items(d):
+    return {k: v + 1 for k, v in d.items() if v > 0}
